@@ -45,6 +45,32 @@ S64 = [0, 1 << 63, 0x7ff8000000000001, 0x7ff0000000000000, 0xfff0000000000000, 0
 S32 = [0, 1 << 31, 0x7fc00001, 0x7f800000, 0xff800000, 0x3f800000, 0xbf800000]
 
 
+READ_SWAP = [False]    # how the runtime's readUnaligned32/64 order the bytes (probed from the real code by detect_read_order)
+
+
+def _as_read(bits, w):
+    return int.from_bytes(bits.to_bytes(w, "little"), "big") if READ_SWAP[0] else bits
+
+
+def detect_read_order(binary):
+    """llgo's goarch endian_*.go decide how memhash reads its operand; the model driver is handed the operand as the
+    runtime reads it, so a change there does not disturb the correspondence.  Probe: hash of int64(5) under seed 100."""
+    M = (1 << 64) - 1
+    m1, m2, m5 = 0xa0761d6478bd642f, 0xe7037ed1a0b428db, 0x1d8e4e27c47d124f
+
+    def mix(a, b):
+        p = a * b
+        return ((p >> 64) ^ (p & M)) & M
+    ans = run_real(binary, ["kind int", "hashkey 4 6 8 10", "rand 100", "mk 0", "get i:5 0"])[0]
+    got = parse_real(ans[-1])[1] if ans else ""
+    for swap in (False, True):
+        a = int.from_bytes((5).to_bytes(8, "little"), "big") if swap else 5
+        if "%x" % mix(m5 ^ 8, mix(a ^ m2, a ^ 100 ^ 5 ^ m1)) == got:
+            READ_SWAP[0] = swap
+            return "byte-swapped" if swap else "native order"
+    return "unknown (memhash64 changed)"
+
+
 def _fpart(bits, w):
     """(part spec for the model driver, canonical value) of one float component of width w bytes"""
     if w == 8:
@@ -57,7 +83,7 @@ def _fpart(bits, w):
         return "n", None
     if zero:
         return "z", 0
-    return "v%x" % bits, bits
+    return "v%x" % _as_read(bits, w), bits
 
 
 def classify(kind, tok):
@@ -80,7 +106,7 @@ def classify(kind, tok):
         re, im, b = body.split(",")
         (p1, c1), (p2, c2) = _fpart(int(re, 16), 8), _fpart(int(im, 16), 8)
         if c1 is None or c2 is None:
-            return None, False, False, "8:%s/%s/u%x" % (p1, p2, int(b) & 0xffffffff)
+            return None, False, False, "8:%s/%s/u%x" % (p1, p2, _as_read(int(b) & 0xffffffff, 4))
         return ("C", c1, c2, int(b)), True, False, "-"
     return tok, True, False, "-"
 
@@ -394,7 +420,49 @@ def gen_adversarial(rng, kind, binary, nops):
     ops.append(("itn", None, None, "z"))
     ops.extend([("itx", None, None, "z")] * (len(live) + 20))
     ops.append(("len", None, None, None))
+    hist["_uniq"] = uniq
     return hist
+
+
+def gen_clear_in_grow(rng, kind, binary, refill=400):
+    """Directed history: fill and churn until the REAL map (watched through the harness' header accessor) is in the
+    middle of a same-size grow (`oldbuckets != nil && sameSizeGrow`), `clear` it right there, refill it far past the
+    load factor with fresh keys (several doubling grows), then read everything back, `len`, and a full range."""
+    h = gen_adversarial(rng, kind, binary, 3000 + 900)
+    rl, pre = real_lines_of(h)
+    ra = run_real(binary, rl)[0]
+    cands = []
+    for i, op in enumerate(h["ops"]):
+        if pre + i >= len(ra):
+            break
+        st = parse_real(ra[pre + i])[2].split(",")
+        if op[0] in ("set", "del") and int(st[5]) == 1 and int(st[1]) & 8 and int(st[0]) > 0:
+            cands.append(i)
+    if not cands:
+        return None
+    cut = rng.choice(cands[:40])
+    ops = h["ops"][:cut + 1]
+    ops.append(("clr", None, None, None))
+    ops.append(("len", None, None, None))
+    uniq = h["_uniq"]
+    fresh = rng.sample(uniq, min(refill, len(uniq)))
+    val = max([o[2] for o in ops if o[0] == "set"] + [0])
+    for j, k in enumerate(fresh):
+        val += 1
+        ops.append(("set", k, val, None))
+        if j % 97 == 50:
+            ops.append(("len", None, None, None))
+    ops.append(("len", None, None, None))
+    for k in fresh:
+        ops.append(("get", k, None, None))
+    ops.append(("itn", None, None, "z"))
+    ops.extend([("itx", None, None, "z")] * (len(fresh) + 20))
+    for k in fresh[::3]:
+        ops.append(("del", k, None, None))
+    ops.append(("len", None, None, None))
+    for k in fresh[:60]:
+        ops.append(("get", k, None, None))
+    return {"kind": kind, "profile": "clear-in-same-size-grow", "hashkey": h["hashkey"], "rand": h["rand"], "ops": ops}
 
 
 def real_lines_of(hist):
@@ -680,13 +748,85 @@ def first_effective_clear(hist, real_ans, pre):
     return None
 
 
+# ------------------------------------------------------------------------------------------------ descriptor side
+from vlib.c06_e2e import FIXED_TYPES
+
+
+def gen_types(rng, n):
+    """random comparable struct/array shapes (padding inside / at the tail, blank and zero-size fields, floats, complex,
+    strings, interfaces, pointers, nested structs and arrays of structs)"""
+    scal = ["int8", "uint8", "bool", "int16", "uint16", "int32", "uint32", "int64", "uint64", "int", "uintptr", "*int",
+            "chan int", "float32", "float64", "complex64", "complex128", "string", "any", "interface{ M() }",
+            "[2]int8", "[3]int16", "[0]int64", "[2]float32", "[1]string", "[4]uint8", "struct{}"]
+    w = [6, 5, 3, 5, 2, 6, 3, 8, 3, 4, 2, 4, 1, 2, 2, 1, 1, 2, 1, 1, 3, 2, 2, 1, 1, 2, 1]
+    decls = list(FIXED_TYPES)
+    for i in range(n):
+        name = "T%d" % i
+        r = rng.random()
+        prev = [d[0] for d in decls]
+        if r < 0.08 and prev:
+            decls.append((name, "[%d]%s" % (rng.choice([0, 1, 2, 3]), rng.choice(prev))))
+            continue
+        fields = []
+        for j in range(rng.choice([1, 2, 2, 3, 3, 4, 5])):
+            t = rng.choice(prev) if (prev and rng.random() < 0.12) else rng.choices(scal, w)[0]
+            fields.append("%s %s" % ("_" if rng.random() < 0.06 else "F%d" % j, t))
+        decls.append((name, "struct{ " + "; ".join(fields) + " }"))
+    src = "package main\n\n" + "".join("type %s %s\n" % d for d in decls)
+    src += "\nvar regNames = []string{%s}\n" % ", ".join('"%s"' % d[0] for d in decls)
+    src += "var regTypes = []any{%s}\n" % ", ".join("%s{}" % d[0] for d in decls)
+    return src, decls
+
+
+def run_regmem(ctx, rng, n):
+    """-> {type name: (gc, llgo, tflag)}; reports a type that llgo flags as regular memory although gc does not"""
+    d = os.path.join(ctx.scratch, "regmem")
+    shutil.rmtree(d, ignore_errors=True)
+    os.makedirs(d)
+    src, decls = gen_types(rng, n)
+    open(os.path.join(d, "types_gen.go"), "w").write(src)
+    shutil.copy(os.path.join(VERIF, "harness", "c06", "regmem_main.go.txt"), os.path.join(d, "main.go"))
+    open(os.path.join(d, "go.mod"), "w").write(
+        "module github.com/goplus/llgo/internal/vp06\n\ngo 1.24\n\nrequire github.com/goplus/llgo v0.0.0\n\n"
+        "replace github.com/goplus/llgo => %s\n\nreplace github.com/goplus/llgo/runtime => %s/runtime\n" % (REPO, REPO))
+    if os.path.exists(os.path.join(REPO, "go.sum")):
+        shutil.copy(os.path.join(REPO, "go.sum"), os.path.join(d, "go.sum"))
+    import vlib.common as vc
+    p = vc.run(["go", "build", "-o", "regmem.bin", "."], cwd=d, env=go_env())
+    if p.returncode != 0:
+        raise HarnessBuildError("regular-memory harness does not build against ssa/abi of the working tree:\n" + (p.stdout + p.stderr)[-3000:])
+    p = vc.run([os.path.join(d, "regmem.bin"), os.path.join(d, "types_gen.go")], cwd=d)
+    if p.returncode != 0:
+        raise HarnessBuildError("regular-memory harness failed:\n" + (p.stdout + p.stderr)[-3000:])
+    decl = dict(decls)
+    res, unsafe_flag, slower = {}, [], 0
+    for ln in p.stdout.split("\n"):
+        f = ln.split()
+        if len(f) == 4:
+            gc, ll, tf = (int(x.split("=")[1]) for x in f[1:])
+            res[f[0]] = (gc, ll, tf)
+            if (ll or tf) and not gc:
+                unsafe_flag.append(f[0])
+            elif gc and not ll:
+                slower += 1
+    for name in unsafe_flag[:3]:
+        # expand nested names for the replay
+        ctx.log("descriptor: llgo flags %s = %s as regular memory, the reference compiler does not" % (name, decl[name]))
+        ctx.report("regmem:" + decl[name], "ssa/abi IsRegularMemory says regular memory for a type whose == / hash must not "
+                   "look at all its bytes (padding, floats, strings, interfaces or blank fields inside): " + decl[name],
+                   {"type": name, "decl": decl[name], "all_decls": {k: v for k, v in decls if k in decl[name] or k == name},
+                    "gc_regular": 0, "llgo_regular": 1})
+    return res, {"types": len(res), "llgo_regular_but_not_gc": len(unsafe_flag), "gc_regular_but_not_llgo (harmless)": slower,
+                 "regular_by_both": sum(1 for v in res.values() if v[0] and v[1])}
+
+
 def build_native(ctx):
     H = os.path.join(VERIF, "harness", "c06")
     extra = {"zz_support.go": native.RT_SUPPORT, "zz_c06.go": open(os.path.join(H, "rt_extra.go.txt")).read()}
     return native.make_native(ctx, RT_FILES, extra, {"main.go": open(os.path.join(H, "main.go.txt")).read()}, name="native-c06")
 
 
-def run_e2e(ctx, rng, defect_clear, nops, small=False):
+def run_e2e(ctx, rng, defect_clear, nops, small=False, gcflags=None):
     """End-to-end route: llgo-compiled interpreters using real map syntax, judged against the specification.
     Two batched programs per optimisation level: A = six key kinds without clear(); B = the same kinds with clear()
     and, last, the kind whose key and elem are larger than 128 bytes (stored indirectly)."""
@@ -697,8 +837,9 @@ def run_e2e(ctx, rng, defect_clear, nops, small=False):
     seen = set()
     # quick tier: ONE small program (all seven kinds, five short histories each, with clear + refill)
     bnd = c06_e2e.BOUNDARY          # key / elem sizes 127, 128, 129 bytes (inline vs indirect slots)
-    programs = ((("Q", kinds6 + ["big"] + bnd, True),) if small else
-                (("A", kinds6, False), ("B", kinds6 + bnd + ["big"], True)))
+    pdd = c06_e2e.PADDED            # padded-struct keys with dirtied padding, complex64/128 keys, struct with a complex field
+    programs = ((("Q", kinds6 + pdd + ["big"] + bnd, True),) if small else
+                (("A", kinds6 + pdd, False), ("B", kinds6 + pdd + bnd + ["big"], True)))
     for (pname, kinds, with_clear) in programs:
         src, meta = c06_e2e.gen_program(rng, kinds, nops, with_clear, histories=5 if small else 1)
         d = os.path.join(ctx.scratch, "e2e-" + pname)
@@ -723,6 +864,19 @@ def run_e2e(ctx, rng, defect_clear, nops, small=False):
             stats["programs"] += 1
             lines = [l.split() for l in err.split("\n") if l.startswith("@ ")]
             stats["trace_lines"] += len(lines)
+            # read-back of the TFlagRegularMemory bit the compiler emitted, against the reference compiler's descriptors
+            for l in lines:
+                if len(l) == 4 and l[1] == "tflag" and gcflags and l[2] in gcflags:
+                    stats["tflag_readbacks"] = stats.get("tflag_readbacks", 0) + 1
+                    if l[3] == "1" and not gcflags[l[2]][0]:
+                        decl = dict(c06_e2e.FIXED_TYPES)[l[2]]
+                        key = "regmem-emitted:" + decl
+                        if key not in seen:
+                            seen.add(key)
+                            ctx.log("e2e %s %s: the emitted descriptor of %s = %s carries TFlagRegularMemory, the reference compiler's does not" % (pname, opt, l[2], decl))
+                            ctx.report(key, "llgo emits TFlagRegularMemory for a type that is not regular memory: " + decl,
+                                       {"type": l[2], "decl": decl, "opt": opt, "emitted": 1, "gc": 0,
+                                        "program": "any program containing `var x any = %s{}`; the flag is bit 3 of the byte at offset 20 of the type descriptor" % l[2]})
             for kind in kinds:
                 kl = [l[2:] for l in lines if len(l) > 2 and l[1] == kind]
                 bad = c06_e2e.judge_trace(kind, meta[kind], kl)
@@ -790,7 +944,7 @@ def run(ctx, args):
                     leanchecker=not quick)
     modeld = build_driver(ctx, "modeld_c06")
     binary = build_native(ctx)
-    ctx.log("native copy of the map runtime built from", REPO)
+    ctx.log("native copy of the map runtime built from", REPO, "- memhash operand order:", detect_read_order(binary))
 
     hists = []
     # corpus first (minimised past failures / boundary cases)
@@ -825,6 +979,11 @@ def run(ctx, args):
                 h = gen_adversarial(rng, kind, binary, 2500 if quick else 8000)
                 h["name"] = "%s/adv%d" % (kind, j)
                 hists.append(h)
+            for j in range((1 if kind in ("int", "str", "any") else 0) if quick else 4):
+                h = gen_clear_in_grow(rng, kind, binary)
+                if h is not None:
+                    h["name"] = "%s/clear-in-grow%d" % (kind, j)
+                    hists.append(h)
 
     total = 0
     unknown_reports = 0
@@ -905,10 +1064,13 @@ def run(ctx, args):
         ctx.broken.append("correspondence real map.go vs Lean HMap model (%d histories differ), e.g. %s op %d" % (len(mismatches), name, mm[0]))
         if not ctx.violations:
             ctx.report_broken("correspondence C06 real-vs-model", {"history": hist_json(h, mm[0]), "op": mm[0], "real": mm[1], "model": mm[2], "source": name})
+    # descriptor side: ssa/abi IsRegularMemory/TFlag vs the reference compiler's own descriptors
+    regflags, reg_stats = run_regmem(ctx, rng, 300 if quick else 3000)
+    ctx.log("regular-memory descriptors:", reg_stats)
     e2e_stats = None
     if os.environ.get("C06_E2E", "1") != "0":
         big = (not quick) or os.environ.get("C06_E2E") == "full"
-        e2e_stats = run_e2e(ctx, rng, defect_clear, 1200 if not quick else (400 if big else 300), small=not big)
+        e2e_stats = run_e2e(ctx, rng, defect_clear, 1200 if not quick else (400 if big else 300), small=not big, gcflags=regflags)
         ctx.log("e2e:", e2e_stats)
     for name, s in st.items():
         if s != "ok":
@@ -933,5 +1095,5 @@ def run(ctx, args):
         "rule": "one evaluation = one map operation executed by the real code AND the model and compared; distinct = (kind, op, key token/slot)",
         "input_distribution": dist, "histories": len(hists), "spec_failures_on_real_code": spec_fail,
         "correspondence_mismatches": len(mismatches), "comparison_suspended_after_clear": suspended,
-        "e2e": e2e_stats if e2e_stats else "switched off (C06_E2E=0)",
+        "e2e": e2e_stats if e2e_stats else "switched off (C06_E2E=0)", "regular_memory_descriptors": reg_stats,
         "model_coverage": cov})
